@@ -360,6 +360,22 @@ def check(prop, tier, seed):
                                    'src': 'src/node_id.rs', 'module': 'code::node_id', 'line': None, 'clause_line': None, 'clause': k['what'],
                                    'labels': ['%s.kani.%s' % (prop, k['harness'].split('::')[-1])], 'rendered': k['detail'], 'ext': [], 'kani': k})
 
+    # thorough tier: cross-check the ASSUMED alloy-rlp contracts this property rests on (bounded Kani harnesses; informative only,
+    # but a refuted assumption makes the proof meaningless -> UNDECIDED)
+    crosschecks = []
+    if tier == 'thorough' and prop in vpkani.RLP_PROPS:
+        hk = hashlib.sha256()
+        for pth in [os.path.join(D.REPO, 'Cargo.lock'), os.path.join(D.VERIF, 'kani', 'rlp_conformance.rs'), os.path.join(D.VERIF, 'lib', 'vpkani.py')]:
+            hk.update(open(pth, 'rb').read())
+        kf = os.path.join(CACHE, 'kani_rlp_%s.json' % hk.hexdigest()[:16])
+        if os.path.exists(kf):
+            crosschecks = json.load(open(kf))
+        else:
+            crosschecks = vpkani.run_rlp_conformance()
+            json.dump(crosschecks, open(kf, 'w'))
+        if any(c['status'] == 'fail' for c in crosschecks):
+            undecided('an ASSUMED alloy-rlp contract was refuted by its Kani cross-check: ' + '; '.join(c['harness'] for c in crosschecks if c['status'] == 'fail'))
+
     findings = [k for k in load_findings() if k['property'] == prop]
     known_labels = set(k['obligation'] for k in findings)
     new_violations = []
@@ -406,6 +422,7 @@ def check(prop, tier, seed):
         'dropped_from_extraction': res['extract_log'].get('dropped', []),
         'shared_run_cached': bool(res.get('cached')),
         'bounded': ['Kani harness %s: %s' % (k['harness'], k['what']) for k in kani if 'parse' in k['harness']],
+        'assumption_crosschecks': crosschecks,
         'kani': [{'harness': k['harness'], 'status': k['status'], 'checks': k.get('checks'), 'wall_s': round(k['wall_s'], 1), 'cmd': k['cmd'], 'what': k['what']} for k in kani],
         'explanation': 'Every clause labelled [%s.*] in /verif/contracts is injected into the text extracted from /repo/src on this run; '
                        'the property holds iff Verus discharges every such clause, every supporting lemma, and the vacuity probe fails.' % prop,
